@@ -1,0 +1,7 @@
+//go:build !verif
+// +build !verif
+
+package verifhook
+
+// Yield is a no-op unless the code is built with the "verif" tag.
+func Yield(point string) {}
